@@ -146,6 +146,62 @@ def check_process_object(ctx, rep):
     rep.check('C13.P', 'process_object::one-registry', all(s.value.id == dic for _, s in lookups + register), W, None, "lookups and registration use different dictionaries")
 
 
+def check_range_references_look_every_member_up(ctx, rep):
+    """C13.P (addition) — a range reference `stem.{a:b}` names b − a ids; a specification is well formed only if every one of them is defined.  Wherever the `{`-form is
+    taken apart (a test `"{" in <reference>`), the members are looked up in the registry one by one — a loop over range(…) with a registry subscript inside, under the
+    KeyError → JSONParseError guard.  Resolving only the last id accepts a range with a hole."""
+    um = ctx.prog.module(UTILS)
+    sites = []
+    for fn in [f for f in ast.walk(um.tree) if isinstance(f, ast.FunctionDef)]:
+        for t in ast.walk(fn):
+            if isinstance(t, ast.If) and any(isinstance(c, ast.Compare) and isinstance(c.left, ast.Constant) and c.left.value == '{' and isinstance(c.ops[0], (ast.In, ast.NotIn)) for c in ast.walk(t.test)):
+                sites.append((fn, t))
+    if not sites:
+        rep.undecided('C13.P', 'process_object::range-references', where(um, um.functions.get('process_object') or um.tree), 'no test for the `{`-form of a reference found in core/utils.py')
+        return
+    for fn, t in sites:
+        params = {a.arg for a in fn.args.args}
+        loops = [lp for lp in ast.walk(fn) if isinstance(lp, ast.For) and isinstance(lp.iter, ast.Call) and isinstance(lp.iter.func, ast.Name) and lp.iter.func.id == 'range']
+        looked = [lp for lp in loops if any(isinstance(x, ast.Subscript) and isinstance(x.value, ast.Name) and x.value.id in params and isinstance(x.ctx, ast.Load) for x in ast.walk(lp))]
+        rep.check('C13.P', f"{fn.name}::range-reference-looks-every-member-up", bool(looked), where(um, t), {'loops_over_the_range': len(loops), 'with_a_registry_lookup': len(looked)},
+                  f"{fn.name} takes a range reference apart without looking every id of the range up in the registry: a specification whose range has an undefined member (a dangling "
+                  f"reference) is accepted as long as the last id exists")
+
+
+def check_factories_hand_over_the_shared_object(ctx, rep):
+    """C13.U (addition) — what a from_json obtains from process_object is THE object of that id; it is handed on as it is.  Its `.tensor` read at load time is the value of
+    that moment: handed to a constructor (or put into the argument list of one) it is a copy that later updates of the parameter do not reach.  Accepted reads: the layout
+    (`*_like`, `.shape`, `.size`, `.dtype`), and a value written back through the same parameter's own setter."""
+    n = 0
+    for mname, m in sorted(ctx.prog.modules.items()):
+        if not mname.startswith('torchtree') or '.cli' in mname:
+            continue
+        for fn in ast.walk(m.tree):
+            if not isinstance(fn, ast.FunctionDef) or fn.name in PROCESS_FUNCS:
+                continue
+            cl = getattr(fn, '_parent', None)
+            scope = f"{cl.name}.{fn.name}" if isinstance(cl, ast.ClassDef) else fn.name
+            po = {t.id for st in ast.walk(fn) if isinstance(st, ast.Assign) and isinstance(st.value, ast.Call) and (dotted_name(st.value.func) or '').split('.')[-1] in PROCESS_FUNCS
+                  for t in st.targets if isinstance(t, ast.Name)}
+            for x in ast.walk(fn):
+                if not (isinstance(x, ast.Attribute) and x.attr == 'tensor' and isinstance(x.value, ast.Name) and x.value.id in po and isinstance(x.ctx, ast.Load)):
+                    continue
+                n += 1
+                par = getattr(x, '_parent', None)
+                layout = (isinstance(par, ast.Attribute) and par.attr in ('shape', 'size', 'dtype', 'device', 'ndim', 'dim')) or \
+                    (isinstance(par, ast.Call) and (dotted_name(par.func) or '').split('.')[-1].endswith('_like') and par.args and par.args[0] is x)
+                st = x
+                while st is not None and not isinstance(st, ast.stmt):
+                    st = getattr(st, '_parent', None)
+                written_back = isinstance(st, (ast.Assign, ast.AugAssign)) and any(
+                    isinstance(t, ast.Attribute) and t.attr == 'tensor' and isinstance(t.value, ast.Name) and t.value.id == x.value.id for t in (st.targets if isinstance(st, ast.Assign) else [st.target]))
+                rep.check('C13.U', f"factories::{mname.replace('torchtree.', '')}::{scope}::{x.value.id}.tensor::the-shared-object-is-handed-on", layout or written_back, where(m, x),
+                          {'use': norm_text(st)[:80] if st is not None else None},
+                          f"{scope} reads `{x.value.id}.tensor` — the value the referenced parameter has while the file is being loaded — and hands it on (`{norm_text(st)[:60] if st is not None else ''}`): "
+                          f"the object that is built holds a copy, so an update made through the id (by an optimiser, an operator, another holder) is not observed by it")
+    rep.analysed['tensor_reads_of_resolved_references'] = n
+
+
 def check_constructors_outside_the_protocol(ctx, rep):
     """who-may-call: `X.from_json(spec, registry)` / `X.from_json_safe(spec, registry)` with a registry that is shared (anything but a literal `{}` / `dict()`) is called by
     process_object* (core/utils.py), by from_json_safe itself and by from_json methods on their own data — nowhere else.  A helper that builds a specification "on the spot"
@@ -885,6 +941,9 @@ def check_updates_reach_every_holder(ctx, rep):
         n += 1
     # an in-place write into the tensor of the *underlying* parameter is followed by that parameter's own notification (its holders listen to it, not to the view)
     c11.check_inplace(ctx, RuleProxy(rep, 'C13.U', 'in-place::'), rule='C11.W', only=lambda m, fn: m.name == 'torchtree.core.parameter')
+    # a holder that is given a list holds every entry of it (C14.C rule on Container)
+    from props import c14 as _c14
+    _c14.check_container_keeps_every_component(ctx, rep, rule='C13.U', prefix='holders::')
     # the MCMC operators are holders too: a value they restore or propose is written through the notifying setter (or followed by the notification)
     c11.check_inplace(ctx, RuleProxy(rep, 'C13.U', 'operators::'), rule='C11.W', only=lambda m, fn: m.name.startswith('torchtree.inference.mcmc'))
     tree_base = ctx.classes.get('torchtree.evolution.tree_model.TimeTreeModel')
@@ -929,6 +988,8 @@ def run(ctx, rep):
     check_from_json_safe(ctx, rep)
     check_from_json_sites(ctx, rep)
     check_constructors_outside_the_protocol(ctx, rep)
+    check_factories_hand_over_the_shared_object(ctx, rep)
+    check_range_references_look_every_member_up(ctx, rep)
     check_main(ctx, rep)
     check_remove_comments(ctx, rep)
     try:
